@@ -5342,11 +5342,14 @@ class DfaCompileCtx:
                                 visited.add(i.target)
                                 aux(i.target)
                     else:
-                        real_target = x[transition.on_values]
-                        if real_target and real_target.is_fallthrough and consider(real_target):
-                            if real_target.target not in visited:
-                                visited.add(real_target.target)
-                                aux(real_target.target)
+                        # every symbol the transition stands for: looked up as a set, several transitions of this state
+                        # would be passed over in favour of its Else transition
+                        for symbol in transition.on_values:
+                            real_target = x[symbol]
+                            if real_target and real_target.is_fallthrough and consider(real_target):
+                                if real_target.target not in visited:
+                                    visited.add(real_target.target)
+                                    aux(real_target.target)
                 
                 aux(state)
 
